@@ -62,6 +62,35 @@ emit([len(repr(a)), repr(cyc), str(cyc), len(json.encode(b))])
 emit(depth(45))
 '''
 
+# a library whose enum / record types are never assigned to a global (anonymous when the module is frozen), next to named ones
+ANON = '''
+types = [enum("RED", "GREEN"), record(a=int, b=field(str, "x"))]
+ns = struct(E=enum("x", "y"), T=int | str)
+Named = enum("n1", "n2")
+vals = [types[0]("GREEN"), ns.E("x"), Named("n1")]
+'''
+
+ANON_LOAD = 'load("lib0.star", "types", "ns", "Named", "vals")\n'
+
+
+def anon_binder(t):
+    # binds the anonymous types to top-level names of its own module (a different name on every thread)
+    return [{"op": "eval", "gc": 0, "src": ANON_LOAD + 'Mine%d = types[0]\nemit([repr(Mine%d("RED")), Mine%d.type, repr(types[0]("RED")), repr(vals)])\n'
+             'Other%d = ns.E\nAlias%d = Named\nemit([repr(Other%d("y")), repr(Alias%d("n2")), repr(ns)])\n' % ((t,) * 7)},
+            {"op": "eval", "gc": 0, "src": ANON_LOAD + 'MineR%d = types[1]\nemit([repr(MineR%d), MineR%d.type])\nMyT%d = ns.T\n'
+             'def f(x: MyT%d):\n    return x\nemit(f(1))\nemit(repr(MineR%d(a=1)))\n' % ((t,) * 6)},
+            {"op": "eval", "gc": 0, "src": ANON_LOAD + 'Mine%d = types[0]\nemit(Mine%d.type)\ndef g(x: Mine%d):\n    return x\n'
+             'emit(repr(g(Mine%d("RED"))))\nemit(g(1))\n' % ((t,) * 4)}]
+
+
+ANON_READER = [
+    {"op": "eval", "gc": 0, "src": ANON_LOAD + 'emit([repr(types[0]("RED")), str(types[0]), types[0].type, type(types[0]("RED")), repr(vals)])\n'
+     'emit([repr(ns.E("x")), ns.E.type, repr(ns), dir(types[0]), json.encode(vals[0])])\nemit([repr(types[1]), types[1].type, repr(Named("n1"))])\n'},
+    {"op": "eval", "gc": 0, "src": ANON_LOAD + 'emit(repr(vals))\nemit(isinstance(vals[0], types[0]))\n'},
+    {"op": "eval", "gc": 0, "src": ANON_LOAD + 'emit(str(types[0]("GREEN")))\nemit(types[0]("no-such-element"))\n'},
+    {"op": "eval", "gc": 0, "src": ANON_LOAD + 'emit(repr(types[1]))\nemit(eval_type(types[0]))\n'},
+]
+
 
 def rounds():
     out = []
@@ -94,4 +123,16 @@ def rounds():
     out.append({"id": "corpus:churn-three-producers", "kind": "churn", "seed": 16, "style": "tiny-mixed",
                 "shapes": ["str", "tuple", "list", "big", "nested"], "producers": 3, "consumers": 2, "iters": 100000, "max_ms": 8000,
                 "big_first": 0, "chan_cap": 2, "hold": 1, "ev_n": 12, "route": "block", "limit_s": 120, "threads": []})
+    # 6. first-binder races: a freshly frozen library with anonymous enum / record types; binders assign them to top-level names of their
+    #    own (a different name per thread), readers only observe.  Alone transcripts on fresh copies of the library; 6 concurrent
+    #    repetitions on further fresh copies (racing / binders first / readers first).  Smallest: one binder + one reader.
+    out.append({"id": "corpus:first-binder-two-threads", "seed": 17, "libs": [{"name": "lib0.star", "src": ANON}], "family": "binder",
+                "threads": [{"ops": anon_binder(0), "role": "binder", "group": 0}, {"ops": ANON_READER, "role": "reader", "group": 1}],
+                "fresh_libs": True, "repeat": 6, "stagger_us": 2000, "seq_first": True, "recheck": True, "share_globals": True,
+                "stack_mb": 16, "jitter_us": 20, "focus": ["types[0]", "ns.E"]})
+    out.append({"id": "corpus:first-binder-six-threads", "seed": 18, "libs": [{"name": "lib0.star", "src": ANON}], "family": "binder",
+                "threads": [{"ops": anon_binder(t), "role": "binder", "group": 0} if t % 2 == 0 else
+                            {"ops": ANON_READER, "role": "reader", "group": 1} for t in range(6)],
+                "fresh_libs": True, "repeat": 6, "stagger_us": 300, "seq_first": False, "recheck": True, "share_globals": False,
+                "stack_mb": 16, "jitter_us": 1, "focus": ["types[0]", "ns.E"]})
     return out
